@@ -137,6 +137,7 @@ class Impl:
         except TypeError:
             return "err TypeError"
     def R(self, s): return float(Fr(s)) if "/" in s else (int(s) if re.fullmatch(r"-?\d+", s) else float(s))
+    def op_probe_exact(self): return "probe"
     def op_reset(self):
         import PEPit
         self.o = {"nullP": PEPit.null_point, "nullE": PEPit.null_expression}; self.pep = PEP(); return "ok"
@@ -1136,6 +1137,17 @@ def run_programs(progs):
     impl = Impl()
     all_lines, exp, idx = [], [], []
     strict = {seed: dyadic_program(lines) for seed, lines in progs}
+    def probed(lines):
+        # before every group of `dump.*` lines of a bit-exactly compared program the model is asked whether EVERY coefficient it
+        # has computed so far (printed or not) is a 26-bit dyadic: an unprinted intermediate such as `-2^50 + 2^-50` has rounded
+        # in floating point although everything printed afterwards (`2^-50` against `0`) looks exact
+        out, prev = [], False
+        for l in lines:
+            d = l.startswith("dump.")
+            if d and not prev: out.append("probe.exact")
+            out.append(l); prev = d
+        return out
+    progs = [(seed, probed(lines) if strict[seed] else lines) for seed, lines in progs]
     for seed, lines in progs:
         for l in lines:
             impl.last_line = None
@@ -1161,6 +1173,10 @@ def run_programs(progs):
         if m and any(not pow2(Fr(v)) for _, v in _PAIR.findall("{" + m.group(1) + "}")): tainted.add(idx[i])
     for i in range(n):
         sd = idx[i]
+        if exp[i] == "probe":
+            if out[i] != "probe exact": tainted.add(sd)
+            if not out[i].startswith("probe "): bad.append(i)
+            continue
         if not same(out[i], exp[i], strict.get(sd, False) and sd not in tainted, scale.get(sd, 0.0)): bad.append(i)
         coefs = [Fr(v) for _, v in _PAIR.findall(out[i])]
         if coefs: scale[sd] = max(scale.get(sd, 0.0), max(abs(float(c)) for c in coefs if abs(c) < 10 ** 300))
